@@ -5,7 +5,7 @@
 //!   evm acct <addr> <balance> <nonce> <code|-> <k=v,..|->
 //!   evm pc <addr> <gaslimit> <input|-> <class> <gasused> <output|->      (recorded precompile answers; input of the model only)
 //!   evm tx <caller> <gaslimit> <gasprice> <to|-> <value> <data|-> <nonce|-> <chainid|-> <prio|-> <blobhashes|-> <maxblobfee|-> <accesslist|-> <authlist>
-//! reply of `tx`: `reject` | `<class> gas= refund= out= created= logs= || <touched accounts>` | `panic` | `oracle-miss`
+//! reply of `tx`: `reject` | `<class> gas= refund= out= created= logs= ;; <touched accounts>` | `panic` | `oracle-miss`
 //!
 //! The executor is a pure function of the request lines. Two sources of cases: (a) generated multi-contract worlds
 //! and transactions (c01gen.rs), (b) the shipped execution-spec state tests (c01vec.rs) restricted to the cases that
@@ -524,7 +524,7 @@ pub fn canon(rs: &ResultAndState) -> String {
         ));
     }
     accts.sort();
-    format!("{} || {}", head, accts.into_iter().map(|x| x.1).collect::<Vec<_>>().join(" "))
+    format!("{} ;; {}", head, accts.into_iter().map(|x| x.1).collect::<Vec<_>>().join(" "))
 }
 
 // ---------------------------------------------------------------------------------------------- precompile oracle
